@@ -148,6 +148,23 @@ Proof.
   destruct (len pw =? 0); repeat split.
 Qed.
 
+(* the card key version written by FelicaLiteS._protect: incremented and clamped to the 16-bit maximum *)
+Theorem bridge_lites_ckv blk : length blk = 16%nat -> bytes_ok blk ->
+  gen_lites_ckv_block blk = lites_ckv_block blk /\ gen_lites_ckv_blockno = 134.
+Proof.
+  intros H Hb. split; [|reflexivity].
+  destruct (list16 blk H) as (a0 & a1 & a2 & a3 & a4 & a5 & a6 & a7 & a8 & a9 & a10 & a11 & a12 & a13 & a14 & a15 & ->).
+  apply bytes_ok_cons in Hb. destruct Hb as [H0 Hb]. apply bytes_ok_cons in Hb. destruct Hb as [H1 _].
+  unfold byte_ok in *.
+  unfold gen_lites_ckv_block, lites_ckv_block.
+  change (unpack_le16 (pyslice [a0; a1; a2; a3; a4; a5; a6; a7; a8; a9; a10; a11; a12; a13; a14; a15] 0 2)) with (a0 + 256 * a1).
+  cbn [nth]. unfold Z.add at 1. fold (Z.add (a0 + 256 * a1) 1).
+  set (v := Z.min (a0 + 256 * a1 + 1) 65535).
+  assert (Hv : 0 <= v <= 65535) by (unfold v; lia).
+  unfold pack_le16, le16. f_equal. f_equal. f_equal.
+  symmetry. apply Z.mod_small. split; [apply Z.div_pos; lia | apply Z.div_lt_upper_bound; lia].
+Qed.
+
 (* ---- block list / service code elements of the read and write commands ------------------------------- *)
 Theorem bridge_block_code n : 0 <= n < 65536 -> block_code n = Ok (gen_blockcode_pack n 0 0).
 Proof.
